@@ -134,7 +134,8 @@ def run(ctx):
     ctx.note("normalisations_exercised", used_total)
     first = lambda pre: [c for c in cases if c["src"].startswith(pre)][:1]
     for c in cases[:3] + first("std/") + first("focus/quote") + first("focus/comment") + first("focus/doc"):
-        ctx.sample({"src": c["src"], "text": c["text"][:200], "cfg": _fmt.model_cfg(c["cfg"])})
+        ctx.sample({"src": c["src"], "text": c["text"][:200],
+                    "cfg": c["cfg"] if c["src"].startswith("focus/") else _fmt.model_cfg(c["cfg"])})
     for sig, ds in sorted(found.items()):
         srcs = sorted({d["src"] for d in ds})
         ctx.violation(sig, {"count": len(ds), "sources": srcs[:12], "first": ds[0], "more": ds[1:3]})
